@@ -94,11 +94,13 @@ func c12BoundedPasses(c *Ctx) {
 	c.check(bad == "", "C12.R4", "pass-counter "+m.fnName(parse), "every iteration of the merge/relocate loop increments resolvePasses", bad, m.pos(parse.Pos()))
 
 	// (b) relocate asks for another pass only while resolvePasses <= maxResolvePasses
-	directExtra := func(g *IG) []int {
-		var out []int
-		for _, rn := range g.Returns() {
-			if k, ok := constUint64(g.Ins[rn].(*ssa.Return).Results[0]); ok && k == extra {
-				out = append(out, rn)
+	// the places where a function itself (or a helper spliced into it) decides to
+	// return "another pass is needed": return cases with that constant
+	directExtra := func(g *IG) []RetCase {
+		var out []RetCase
+		for _, rc := range g.ReturnCases() {
+			if k, ok := constUint64(rc.Vals[0]); ok && k == extra {
+				out = append(out, rc)
 			}
 		}
 		return out
@@ -106,9 +108,9 @@ func c12BoundedPasses(c *Ctx) {
 	gr := newIG(m, reloc, nil)
 	bad = ""
 	n := 0
-	for _, rn := range directExtra(gr) {
+	for _, rc := range directExtra(gr) {
 		n++
-		if !hasFact(gr.FactsAt(rn), func(f Fact) bool {
+		if !hasFact(gr.CaseFacts(rc), func(f Fact) bool {
 			return cmpMatch(f, token.LEQ, isField(passesF), func(v ssa.Value) bool { k, ok := constUint64(v); return ok && k <= maxP })
 		}) {
 			bad = "relocateNamedObjects can ask for another pass although resolvePasses > maxResolvePasses"
@@ -132,7 +134,7 @@ func c12BoundedPasses(c *Ctx) {
 				cut = append(cut, f.Edge)
 			}
 		}
-		if !gm.UnreachableWithout(rn, cut) {
+		if !gm.UnreachableWithout(rn.At, cut) {
 			bad = "mergeScopeDirectives can ask for another pass although this is not the first pass and the previous relocate pass moved nothing: the loop never ends on an unresolvable Scope"
 		}
 	}
